@@ -580,6 +580,37 @@ def unchanged(g, pd, praw):
         bad.append('raw tables changed')
     return bad
 
+def o_c14_unseen(run):
+    """grammar runs: a well-formed GetChildVersion / AddSnapshot / GetSnapshot for a client the server has never seen is
+    answered 404 - whatever REFUSED requests were made under that id before. "Seen" is what the answers say: the client had
+    a record when the grammar phase began, or an AddVersion under its id was answered 200 or 409 since."""
+    out = []
+    seen, first = set(), True
+    for g, pd, praw in http_groups(run):
+        if first:
+            seen |= {c for c, d in pd.items() if not (d or '').startswith('latest=none')}
+            first = False
+        r = g.ops[0]
+        ih = r.i_out[1] if isinstance(r.i_out, tuple) and r.i_out[0] == 'http' else None
+        if ih is None:
+            continue
+        hs = [w for w in r.lhs.split() if w.startswith('x-client-id=')]
+        c = None
+        if len(hs) == 1:
+            try:
+                import uuid as _uuid
+                c = str(_uuid.UUID(bytes.fromhex(hs[0].split('=', 1)[1]).decode().strip()))     # simple / braced / urn / upper-case forms name the same id
+            except Exception:
+                c = None
+        route = g.meta.get('route')
+        if c and route == 'av' and ih['status'] in (200, 409):
+            seen.add(c)
+        if c is None or g.meta.get('defects', '-') != '-' or route not in ('gcv', 'as', 'gs'):
+            continue
+        if c in pd and c not in seen and ih['status'] != 404:
+            out.append(fail('C14: 404 for a client the server has never seen (except on AddVersion, which creates it)', r, f'no AddVersion under client id {c} was ever answered 200 or 409 and it had no record at the start; answered {ih["status"]}'))
+    return out
+
 def o_c15(run):
     out = []
     for g, pd, praw in http_groups(run):
@@ -881,6 +912,26 @@ def o_c03(run):
 
 EMPTY_CLIENT = 'latest=none snap=- data=none'
 CREATED_CLIENT = 'latest=00000000-0000-0000-0000-000000000000 snap=- data=none'
+
+def o_c15_bin(run):
+    """the real executable: every malformed request is ANSWERED, with a 4xx; the server survives"""
+    out = []
+    if run.setup != 'binary-malformed':
+        return out
+    for r in run.recs:
+        if r.ws[0] != 'xhttp':
+            continue
+        m = r.meta or {}
+        ih = parse_http_obs(r.impl)
+        st = ih.get('status') if ih else None
+        if m.get('op') == 'malformed':
+            if not isinstance(st, int):
+                out.append(fail('C15: no request makes the server fail with a 5xx or crash; each gets a 4xx response', r, f'no answer at all ({r.impl}) to a request with client id {m.get("cid")} on route {m.get("route")} (real executable)'))
+            elif st >= 500 or (m.get('want') == '4xx' and not 400 <= st < 500):
+                out.append(fail('C15: no request makes the server fail with a 5xx or crash; each gets a 4xx response', r, f'status {st} for client id {m.get("cid")} on route {m.get("route")} (real executable)'))
+        if m.get('op') == 'alive' and st != 200:
+            out.append(fail('C15: no request makes the server crash, and none changes any stored state', r, f'after the malformed requests the stored version is answered {r.impl}'))
+    return out
 
 def o_c13_max(run):
     """payloads at the protocol's size limit: same outcome on both backends, and the bytes come back"""
